@@ -1,9 +1,11 @@
 // C14 — arity-indexed families compute their defining equation at every arity.
 //
-// The call sites live in the generated files zz_*.go (generator: ./gen, text/template; run
-// `go run ./c14/gen` from /verif to regenerate — the check itself never generates). Every
-// site is a generic function over type parameters A1..An; it is instantiated twice in
-// zz_index*.go: with the pairwise distinct types T1..Tn ("must compile": every library
+// The call sites live in the generated packages ./sites/<group>/ (generator: ./gen,
+// text/template; run `go run ./c14/gen` from /verif to regenerate — the check itself never
+// generates; the groups are separate packages only so that `go build` compiles them in
+// parallel), the hand-written runtime in ./rt. Every site is a generic function over type
+// parameters A1..An; its registration line instantiates it twice: with pairwise distinct
+// types taken from T1..T22 ("must compile": every library
 // member is instantiated at n distinct types, and the explicit instantiation of the
 // observers forces each result position to have exactly the expected type) and with the
 // single type S at every position, where only the position-tagged *values* tell the
@@ -17,353 +19,19 @@ import (
 	"sort"
 	"strings"
 
+	"verif/c14/rt"
 	"verif/vrt"
 
 	"github.com/csgura/fp"
 )
 
-// ---- value types ------------------------------------------------------------------------
+var sites []rt.Site
 
-// val is the constraint of every argument type: a string-kinded type (so that the harness
-// can tag / read values) that also satisfies fp.Named (needed by the Labelled families).
-type val interface {
-	~string
-	Name() string
-}
-
-// S is the common type of the "one type, position-distinct values" instantiation.
-type S string
-
-func (S) Name() string { return "S" }
-
-// Res / Res2 are result types, distinct from every argument type.
-type Res string
-type Res2 string
-
-// ---- per-case context -------------------------------------------------------------------
-
-type compRec struct {
-	k    int
-	x, y string
-	one  bool // unary observation (Hash / Clone): only x is meaningful
-}
-
-type cx struct {
-	w       *vrt.W
-	idx     int
-	variant string
-	v, u    [maxPos + 1]string // v[k]: value at position k; u[k]: second operand (eq/ord/hash/monoid)
-
-	family, member string
-	n              int
-
-	calls    [][]string
-	wantVec  []string
-	haveWant bool
-	comps    []compRec
-	tasks    []func()
-	checks   []string
-	failed   bool
-}
-
-const maxPos = 22
-
-var cur *cx // the case being executed (single goroutine); used by the future spawn hook
-
-func (c *cx) enter(family, member string, n int) {
-	c.family, c.member, c.n = family, member, n
-	c.w.Hit(family)
-	c.w.Add("pair."+member, 1)
-	c.w.Add("sites."+c.variant, 1)
-	if n >= 2 {
-		c.w.Distinct(member)
-	}
-}
-
-func (c *cx) witness() any {
-	n := c.n
-	if n < 1 {
-		n = 1
-	}
-	if n > maxPos {
-		n = maxPos
-	}
-	return map[string]any{"member": c.member, "instantiation": c.variant, "values": c.v[1 : n+1], "second_operand": c.u[1 : n+1]}
-}
-
-func (c *cx) fail(what, detail string) {
-	c.failed = true
-	c.w.Violation(c.idx, c.member+"/"+what, fmt.Sprintf("%s [%s instantiation]: %s", c.member, c.variant, detail), c.witness())
-}
-
-func (c *cx) note(s string) {
-	if len(c.checks) < 12 {
-		c.checks = append(c.checks, s)
-	}
-}
-
-func fmtCall(args []string) string { return "f(" + strings.Join(args, "|") + ")" }
-
-// call is the body of every recording function argument f: it records the argument vector
-// it received and returns an injective rendering of it.
-func (c *cx) call(args ...string) Res {
-	c.calls = append(c.calls, append([]string(nil), args...))
-	return Res(fmtCall(args))
-}
-
-// want declares the argument vector f must receive (written out by the generator in
-// source order) and returns the rendering f produces for exactly that vector.
-func (c *cx) want(args ...string) string {
-	c.wantVec = append([]string(nil), args...)
-	c.haveWant = true
-	return fmtCall(args)
-}
-
-func sameVec(a, b []string) bool {
-	if len(a) != len(b) {
-		return false
-	}
-	for i := range a {
-		if a[i] != b[i] {
-			return false
-		}
-	}
-	return true
-}
-
-// called checks the recorded calls of f: at least one, each with exactly the wanted vector.
-func (c *cx) called() {
-	if !c.haveWant {
-		return
-	}
-	if len(c.calls) == 0 {
-		c.fail("f-not-called", fmt.Sprintf("the function argument was never invoked; expected a call with %v", c.wantVec))
-		return
-	}
-	for _, cl := range c.calls {
-		if !sameVec(cl, c.wantVec) {
-			c.fail("f-arguments", fmt.Sprintf("the function argument received %v, defining equation passes %v", cl, c.wantVec))
-			return
-		}
-	}
-}
-
-// res compares the observed result with the expected one and then checks f's calls.
-func (c *cx) res(got, want string) {
-	c.note("result " + got)
-	if got != want {
-		c.fail("result", fmt.Sprintf("result %q, defining equation gives %q", got, want))
-	}
-	c.called()
-}
-
-func (c *cx) eqs(what, got, want string) {
-	c.note(what + " " + got)
-	if got != want {
-		c.fail(what, fmt.Sprintf("%s = %q, defining equation gives %q", what, got, want))
-	}
-}
-
-func (c *cx) eqb(what string, got, want bool) {
-	c.note(fmt.Sprintf("%s %v", what, got))
-	if got != want {
-		c.fail(what, fmt.Sprintf("%s = %v, defining equation gives %v", what, got, want))
-	}
-}
-
-func (c *cx) vec(what string, got []string, want ...string) {
-	c.note(fmt.Sprintf("%s %v", what, got))
-	if !sameVec(got, want) {
-		c.fail(what, fmt.Sprintf("%s = %v, defining equation gives %v", what, got, want))
-	}
-}
-
-// step is the body of the k-th function of a composition / merge.
-func (c *cx) step(k int, x string) string { return fmt.Sprintf("f%d(%s)", k, x) }
-
-// prev checks the value a Chain builder hands to the callback of step k (the previous argument).
-func (c *cx) prev(k int, got, want string) {
-	if got != want {
-		c.fail("callback-head", fmt.Sprintf("callback of step %d received %q, the previous argument is %q", k, got, want))
-	}
-}
-
-// ---- type-class component instances (record where each component value is routed) ------
-
-func (c *cx) comp2(k int, x, y string) { c.comps = append(c.comps, compRec{k: k, x: x, y: y}) }
-func (c *cx) comp1(k int, x string)    { c.comps = append(c.comps, compRec{k: k, x: x, one: true}) }
-
-type recEq[A val] struct {
-	c *cx
-	k int
-}
-
-func (r recEq[A]) Eqv(x, y A) bool {
-	r.c.comp2(r.k, string(x), string(y))
-	return string(x) == string(y)
-}
-
-func recOrd[A val](c *cx, k int) fp.Ord[A] {
-	return fp.LessFunc[A](func(x, y A) bool {
-		c.comp2(k, string(x), string(y))
-		return string(x) < string(y)
-	})
-}
-
-type recHash[A val] struct {
-	c *cx
-	k int
-}
-
-func (r recHash[A]) Eqv(x, y A) bool {
-	r.c.comp2(r.k, string(x), string(y))
-	return string(x) == string(y)
-}
-func (r recHash[A]) Hash(x A) uint32 {
-	r.c.comp1(r.k, string(x))
-	return uint32(vrt.Hash64(fmt.Sprintf("%d#%s", r.k, string(x))))
-}
-
-type recMon[A val] struct {
-	c *cx
-	k int
-}
-
-func (r recMon[A]) Empty() A { return A(fmt.Sprintf("e%d", r.k)) }
-func (r recMon[A]) Combine(x, y A) A {
-	return A(fmt.Sprintf("c%d(%s,%s)", r.k, string(x), string(y)))
-}
-
-type recClone[A val] struct {
-	c *cx
-	k int
-}
-
-func (r recClone[A]) Clone(x A) A {
-	r.c.comp1(r.k, string(x))
-	return A(fmt.Sprintf("k%d(%s)", r.k, string(x)))
-}
-
-// expected component results, by position
-func (c *cx) emp(k int) string { return fmt.Sprintf("e%d", k) }
-func (c *cx) cmb(k int) string { return fmt.Sprintf("c%d(%s,%s)", k, c.v[k], c.u[k]) }
-func (c *cx) cln(k int) string { return fmt.Sprintf("k%d(%s)", k, c.v[k]) }
-
-// allEq / lexLess: the reference for Eq / Ord of an n-tuple, written as plain loops.
-func allEq(a, b []string) bool {
-	for i := range a {
-		if a[i] != b[i] {
-			return false
-		}
-	}
-	return true
-}
-
-func lexLess(a, b []string) bool {
-	for i := range a {
-		if a[i] < b[i] {
-			return true
-		}
-		if a[i] > b[i] {
-			return false
-		}
-	}
-	return false
-}
-
-func sign(i int) int {
-	switch {
-	case i < 0:
-		return -1
-	case i > 0:
-		return 1
-	}
-	return 0
-}
-
-// routed checks every recorded component observation: instance k may only ever see the
-// values of position k (of either operand).
-func (c *cx) routed() {
-	for _, r := range c.comps {
-		okx := r.x == c.v[r.k] || r.x == c.u[r.k]
-		oky := r.one || r.y == c.v[r.k] || r.y == c.u[r.k]
-		if !okx || !oky {
-			if r.one {
-				c.fail("component-routing", fmt.Sprintf("the instance passed at position %d was applied to %q; position %d holds %q / %q", r.k, r.x, r.k, c.v[r.k], c.u[r.k]))
-			} else {
-				c.fail("component-routing", fmt.Sprintf("the instance passed at position %d was applied to (%q, %q); position %d holds %q / %q", r.k, r.x, r.y, r.k, c.v[r.k], c.u[r.k]))
-			}
-			return
-		}
-	}
-}
-
-// sawAll checks that every one of the n component instances was consulted (nothing dropped).
-func (c *cx) sawAll(what string, n int) {
-	seen := make([]bool, n+1)
-	for _, r := range c.comps {
-		if r.one && r.k >= 1 && r.k <= n {
-			seen[r.k] = true
-		}
-	}
-	for k := 1; k <= n; k++ {
-		if !seen[k] {
-			c.fail(what+"-drops-component", fmt.Sprintf("%s never consulted the instance of position %d", what, k))
-			return
-		}
-	}
-}
-
-func (c *cx) resetComps() { c.comps = c.comps[:0] }
-
-// ---- observers of the monads ------------------------------------------------------------
-
-func optS(o fp.Option[Res]) string {
-	if o.IsDefined() {
-		return "Some(" + string(o.Get()) + ")"
-	}
-	return "None"
-}
-
-func tryS(t fp.Try[Res]) string {
-	if t.IsSuccess() {
-		return "Success(" + string(t.Get()) + ")"
-	}
-	return fmt.Sprintf("Failure(%v)", t.Failed().Get())
-}
-
-// drain runs every task the default executors handed to the spawn hook, in FIFO order, until
-// none is left (tasks may schedule further tasks).
-func (c *cx) drain() {
-	b := vrt.NewBudget(1_000_000, "future tasks scheduled by one call")
-	for len(c.tasks) > 0 {
-		b.Tick()
-		t := c.tasks[0]
-		c.tasks = c.tasks[1:]
-		t()
-	}
-}
-
-func (c *cx) futS(f fp.Future[Res]) string {
-	c.drain()
-	if !f.IsCompleted() {
-		return "NotCompleted"
-	}
-	return tryS(f.Value())
-}
-
-// ---- site table -------------------------------------------------------------------------
-
-type site struct {
-	family, member string
-	n              int // number of argument positions
-	distinct, same func(*cx)
-}
-
-var sites []site
-
-func reg(family, member string, n int, distinct, same func(*cx)) {
-	sites = append(sites, site{family, member, n, distinct, same})
+func init() {
+	// the generated packages registered their sites in their init functions (package
+	// initialisation order is fixed by the import paths); order them by family
+	sites = append(sites, rt.Sites...)
+	sort.SliceStable(sites, func(i, j int) bool { return sites[i].Family < sites[j].Family })
 }
 
 const nBatches = 16
@@ -391,11 +59,11 @@ func runCase(w *vrt.W, mine []int, i int) {
 	variant := (i / J) % 2
 	j := i % J
 	r := w.Rand(i)
-	c := &cx{w: w, idx: i, variant: "distinct-types"}
+	c := &rt.Cx{W: w, Idx: i, Variant: "distinct-types"}
 	if variant == 1 {
-		c.variant = "same-type"
+		c.Variant = "same-type"
 	}
-	n := st.n
+	n := st.N
 	if n < 1 {
 		n = 1
 	}
@@ -405,11 +73,11 @@ func runCase(w *vrt.W, mine []int, i int) {
 	if j > 0 {
 		mode = r.IntN(5)
 	}
-	for k := 1; k <= maxPos; k++ {
+	for k := 1; k <= rt.MaxPos; k++ {
 		if j == 0 {
-			c.v[k] = fmt.Sprintf("a%d", k)
+			c.V[k] = fmt.Sprintf("a%d", k)
 		} else {
-			c.v[k] = fmt.Sprintf("a%d_%04x", k, r.Uint32()&0xffff)
+			c.V[k] = fmt.Sprintf("a%d_%04x", k, r.Uint32()&0xffff)
 		}
 		differ := false
 		switch mode {
@@ -422,33 +90,34 @@ func runCase(w *vrt.W, mine []int, i int) {
 		case 4:
 			differ = k >= p
 		}
-		c.u[k] = c.v[k]
+		c.U[k] = c.V[k]
 		if differ {
 			if r.IntN(2) == 0 {
-				c.u[k] = c.v[k] + "+" // greater
+				c.U[k] = c.V[k] + "+" // greater
 			} else {
-				c.u[k] = c.v[k][:len(c.v[k])-1] // a proper prefix: smaller
+				c.U[k] = c.V[k][:len(c.V[k])-1] // a proper prefix: smaller
 			}
 		}
 	}
-	cur = c
-	w.Begin(i, st.member)
-	w.Guard(i, c.witness, func() {
+	rt.Cur = c
+	w.Begin(i, st.Member)
+	w.Guard(i, c.Witness, func() {
 		if variant == 0 {
-			st.distinct(c)
+			st.Distinct(c)
 		} else {
-			st.same(c)
+			st.Same(c)
 		}
 	})
 	w.Done(i)
-	cur = nil
-	if c.member != st.member {
-		c.member = st.member
-		c.fail("site-table", "the generated site registered itself under another name: harness defect")
+	rt.Cur = nil
+	w.Max("component_observations_max_per_case", c.NComp)
+	if c.Member != st.Member {
+		c.Member = st.Member
+		c.Fail("site-table", "the generated site registered itself under another name: harness defect")
 	}
-	if j == 0 && variant == 1 && w.WantSample() && st.n >= 3 && r.IntN(4) == 0 {
-		w.Sample(map[string]any{"member": st.member, "positions": st.n, "instantiation": c.variant, "values": c.v[1 : st.n+1],
-			"f_received": c.calls, "observed": c.checks})
+	if j == 0 && variant == 1 && w.WantSample() && st.N >= 3 && r.IntN(4) == 0 {
+		w.Sample(map[string]any{"member": st.Member, "positions": st.N, "instantiation": c.Variant, "values": c.V[1 : st.N+1],
+			"f_received": c.Calls, "observed": c.Checks})
 	}
 }
 
@@ -456,9 +125,9 @@ func familyNames() []string {
 	seen := map[string]bool{}
 	var out []string
 	for _, s := range sites {
-		if !seen[s.family] {
-			seen[s.family] = true
-			out = append(out, s.family)
+		if !seen[s.Family] {
+			seen[s.Family] = true
+			out = append(out, s.Family)
 		}
 	}
 	sort.Strings(out)
@@ -468,8 +137,8 @@ func familyNames() []string {
 func nontrivialMembers() int {
 	seen := map[string]bool{}
 	for _, s := range sites {
-		if s.n >= 2 {
-			seen[s.member] = true
+		if s.N >= 2 {
+			seen[s.Member] = true
 		}
 	}
 	return len(seen)
@@ -484,24 +153,30 @@ func main() {
 		},
 		Run: func(w *vrt.W) {
 			fp.VerifSetSpawn(func(task func()) {
-				if cur != nil {
-					cur.tasks = append(cur.tasks, task)
+				if rt.Cur != nil {
+					rt.Cur.Tasks = append(rt.Cur.Tasks, task)
 				} else {
 					task()
 				}
 			})
+			// one Compare of ord.Tuple21 consults its component instances up to 7.3 million times
+			// (about 3.5 * 2^p for operands that first differ at position p); 2^27 is far above
+			// that, an observation beyond it would be abandoned and counted, not judged
+			rt.ObsBudget = 1 << 27
 			mine := batchSites(w.Batch)
 			for i := w.From; i < w.To; i++ {
 				runCase(w, mine, i)
 			}
 		},
-		Exhaustive: func(string) bool { return true },
-		Rule: "index set = every generated call site, i.e. every (family, arity) member the library exports for the families of C14 (list: coverage.pairs_executed; the generator ./c14/gen enumerates the arity ranges genfp.MaxFunc / MaxProduct / MaxCompose give: 0/1/2..9 function families, 1/2..21 product families, 2..5 fp.Compose). case = (call site, instantiation, value assignment): instantiation is 'distinct-types' (A1..An := T1..Tn, pairwise distinct named types) or 'same-type' (every Ai := S); value assignment j=0 is the plain tagging a1..an, j>0 draws a PRNG suffix per position (values stay position-tagged, hence pairwise distinct) plus, for the Eq/Ord/Hash/Monoid families, a second operand that differs from the first at none / one / a random subset / a suffix of the positions. The expected value next to each call is written out by the generator; the function argument f records the argument vector it received (every call must carry exactly the wanted vector, at least one call). The arity dimension is enumerated completely (exhaustive refers to this finite index set, not to the values). distinct_nontrivial = number of distinct members with at least 2 argument positions whose call site ran (each site registers itself when it executes).",
+		Exhaustive:    func(string) bool { return true },
+		CaseCPUBudget: 120,
+		Rule:          "index set = every generated call site, i.e. every (family, arity) member the library exports for the families of C14 (list: coverage.pairs_executed; the generator ./c14/gen enumerates the arity ranges genfp.MaxFunc / MaxProduct / MaxCompose give: 0/1/2..9 function families, 1/2..21 product families, 2..5 fp.Compose). case = (call site, instantiation, value assignment): instantiation is 'distinct-types' (A1..An := the last n of the pairwise distinct named types T1..T22) or 'same-type' (every Ai := S); value assignment j=0 is the plain tagging a1..an, j>0 draws a PRNG suffix per position (values stay position-tagged, hence pairwise distinct) plus, for the Eq/Ord/Hash/Monoid families, a second operand that differs from the first at none / one / a random subset / a suffix of the positions. The expected value next to each call is written out by the generator; the function argument f records the argument vector it received (every call must carry exactly the wanted vector, at least one call). The arity dimension is enumerated completely (exhaustive refers to this finite index set, not to the values). distinct_nontrivial = number of distinct members with at least 2 argument positions whose call site ran (each site registers itself when it executes).",
 		Assumptions: []string{
 			"values are sampled (16 assignments per site and instantiation in quick, 256 in thorough); only the (family, arity) index set is exhaustive",
 			"futures are observed after running every task the default executors scheduled (spawn hook fp.VerifSetSpawn, FIFO); inputs are already-completed futures",
 			"hlist.Head/Tail/Concat/Empty, fp.Some/Success, future.Successful, Option/Try/Future accessors, fp.LessFunc and struct literals of fp.TupleN/LabelledN are trusted observers/constructors (none is arity-generated except the struct types themselves)",
 			"Hash of a tuple is only required to consult every component instance with its own component and to agree with Eqv; the mixing formula is not fixed by the oracle",
+			"ord.TupleN needs about 3.5*2^p component comparisons when the operands first differ at position p (a cost defect, not part of C14); observations are run under a logical budget of 2^27 component observations and would be abandoned and counted (ord.observations_abandoned_budget) beyond it",
 			"by parametricity the distinct-types instantiation cannot reorder at run time; it is kept because it is the instantiation in which the generated library text must type-check position by position",
 		},
 		Floors: func(tier string) map[string]int64 {
@@ -517,16 +192,16 @@ func main() {
 			missing := []string{}
 			seen := map[string]bool{}
 			for _, s := range sites {
-				if seen[s.member] {
+				if seen[s.Member] {
 					continue
 				}
-				seen[s.member] = true
+				seen[s.Member] = true
 				ngen++
-				if m.Counters["pair."+s.member] > 0 {
-					executed[s.family] = append(executed[s.family], fmt.Sprintf("%s/%d", s.member, s.n))
+				if m.Counters["pair."+s.Member] > 0 {
+					executed[s.Family] = append(executed[s.Family], fmt.Sprintf("%s/%d", s.Member, s.N))
 					nexec++
 				} else {
-					missing = append(missing, s.member)
+					missing = append(missing, s.Member)
 				}
 			}
 			if cs, ok := cov["counters"].(map[string]int64); ok {
